@@ -143,11 +143,9 @@ def main(argv):
             payload = {"property": prop, "kind": "proof-obligation", "slice_or_theorem": pinfo["file"],
                        "problems": pinfo["problems"], "broken_generated_lemmas": pinfo.get("gen_failed", []),
                        "how_to_run": f"./check {prop}"}
-            p = runner.write_replay(prop, payload)
-            has_input = any(k == "violation" for _, k, _, _ in all_findings)
-            if not has_input:
-                lines.append(f"VIOLATION property={prop} replay={p} no-failing-input-found")
-                violations += 1
+            proof_replay = runner.write_replay(prop, payload)
+        else:
+            proof_replay = None
         viol = [(sl, k, c, d) for sl, k, c, d in all_findings if k == "violation" or (k == "disagreement" and sl.promote_disagreement)]
         disag = [(sl, k, c, d) for sl, k, c, d in all_findings if not (k == "violation" or (k == "disagreement" and sl.promote_disagreement))]
         reported = 0
@@ -179,7 +177,15 @@ def main(argv):
             lines.append(f"VIOLATION property={prop} replay={p}")
             violations += 1
             reported += 1
-        if disag and violations == 0 and not any(l.startswith("KNOWN-FINDING") for l in lines):
+        if proof_replay is not None and violations == 0:
+            # a broken proof obligation and no NEW concrete violation reported above (a listed known finding does not count):
+            # the property is no longer shown to hold
+            lines.append(f"VIOLATION property={prop} replay={proof_replay} no-failing-input-found")
+            violations += 1
+            proof_reported = True
+        else:
+            proof_reported = False
+        if disag and violations == 0 and not proof_reported and not any(l.startswith("KNOWN-FINDING") for l in lines):
             sl, kind, case, detail = disag[0]
             small = case if ("did not terminate" in str(detail) or "worker process died" in str(detail)) else runner.shrink_case(sl, case, kind, model)
             payload = {"property": prop, "kind": "correspondence", "slice_or_theorem": "corr:" + sl.name,
